@@ -225,7 +225,9 @@ def p2sh_p2wsh_script_pubkey(witness_script: bytes, witness_version: int = 0):
 
 
 def p2sh_p2wsh_script_sig(witness_script: bytes):
-    return p2sh_script_sig([], witness_script)
+    # scriptSig is a single push of the redeem script, 0 <32-byte sha256(witness_script)>
+    redeem_script = p2wsh_script_pubkey(bits.witness_script_hash(witness_script))
+    return p2sh_script_sig([], redeem_script)
 
 
 def script(args: typing.List[str], witness: bool = False) -> bytes:
